@@ -3,6 +3,7 @@ import TaRs.Lemmas.Core.KeltnerChannel
 import TaRs.Gen.KeltnerChannel
 import TaRs.Lemmas.ExponentialMovingAverage
 import TaRs.Lemmas.AverageTrueRange
+import TaRs.Lemmas.Total.KeltnerChannel
 namespace TaRs.Gen.KeltnerChannel
 open TaRs TaRs.Rs
 variable {F : Type} [Scalar F]
@@ -67,24 +68,5 @@ theorem nextBar_out (s : KeltnerChannel F) (b : Bar F) (r) (h : s.nextBar b = so
       (Scalar.mul (ExponentialMovingAverage.step s.atr.ema (TrueRange.outBar s.atr.true_range b)).current
         s.multiplier) := by
   rw [nextBar_eq] at h; cases h; exact ⟨rfl, rfl, rfl⟩
-
-private theorem step_wf (e : ExponentialMovingAverage F) (x : F) (h : ExponentialMovingAverage.WF e) :
-    ExponentialMovingAverage.WF (ExponentialMovingAverage.step e x) := by
-  obtain ⟨r, hr, hw, _⟩ := ExponentialMovingAverage.next_total e x h
-  rw [ExponentialMovingAverage.next_eq] at hr; cases hr; exact hw
-
-theorem next_total (s : KeltnerChannel F) (x : F) (h : WF s) :
-    ∃ r, s.next x = some r ∧ WF r.1 ∧ r.1.period_fn = s.period_fn ∧
-      r.1.multiplier_fn = s.multiplier_fn := by
-  refine ⟨_, next_eq s x, ⟨⟨step_wf _ _ h.atr.ema⟩, step_wf _ _ h.ema, ?_, ?_⟩, rfl, rfl⟩
-  · exact (ExponentialMovingAverage.step_period _ _).trans h.ema_period
-  · exact (ExponentialMovingAverage.step_period _ _).trans h.atr_period
-
-theorem nextBar_total (s : KeltnerChannel F) (b : Bar F) (h : WF s) :
-    ∃ r, s.nextBar b = some r ∧ WF r.1 ∧ r.1.period_fn = s.period_fn ∧
-      r.1.multiplier_fn = s.multiplier_fn := by
-  refine ⟨_, nextBar_eq s b, ⟨⟨step_wf _ _ h.atr.ema⟩, step_wf _ _ h.ema, ?_, ?_⟩, rfl, rfl⟩
-  · exact (ExponentialMovingAverage.step_period _ _).trans h.ema_period
-  · exact (ExponentialMovingAverage.step_period _ _).trans h.atr_period
 
 end TaRs.Gen.KeltnerChannel
